@@ -484,3 +484,250 @@ func rzToposort(w *World) {
 	}
 	w.floor("panic sites in internal/toposort", n, 2)
 }
+
+// rv3PreludeEncodingGate (RV3, C28/C29): the main lexer loop assumes valid UTF-8, so lexPrelude may
+// let lexing proceed only when it counted no invalid byte. The decision is a switch over values
+// derived from (count, len(text)); it is evaluated on every point 0 <= count <= n <= N of a finite
+// model and must proceed exactly when count == 0.
+func rv3PreludeEncodingGate(w *World) {
+	w.rule("RV3")
+	rel := "experimental/internal/lexer"
+	p := w.pkg(rel)
+	prelude := w.fn(rel, "lexPrelude")
+	if p == nil || prelude == nil {
+		return
+	}
+	info := p.TypesInfo
+	// find the switch whose clauses return false (bail) or break (proceed), preceded by an assignment of a derived variable
+	var sw *ast.SwitchStmt
+	ast.Inspect(prelude.Decl.Body, func(x ast.Node) bool {
+		if s, ok := x.(*ast.SwitchStmt); ok && s.Tag == nil && len(s.Body.List) >= 2 {
+			sw = s
+		}
+		return true
+	})
+	if sw == nil {
+		w.undecided("encoding-gate|switch", prelude.Decl.Pos(), "no tagless switch deciding the encoding check found in lexPrelude")
+		return
+	}
+	// derived variables: simple assignments `v := expr` before the switch in the same function
+	type def struct {
+		name string
+		expr ast.Expr
+	}
+	var defs []def
+	for _, st := range prelude.Decl.Body.List {
+		if st.Pos() >= sw.Pos() {
+			break
+		}
+		if as, ok := st.(*ast.AssignStmt); ok && as.Tok == token.DEFINE && len(as.Lhs) == 1 && len(as.Rhs) == 1 {
+			defs = append(defs, def{render(as.Lhs[0]), as.Rhs[0]})
+		}
+	}
+	// which variable is the counter? the one incremented in the loop
+	counter := ""
+	ast.Inspect(prelude.Decl.Body, func(x ast.Node) bool {
+		if ids, ok := x.(*ast.IncDecStmt); ok && ids.Tok == token.INC {
+			counter = render(ids.X)
+		}
+		return true
+	})
+	if counter == "" {
+		w.undecided("encoding-gate|counter", prelude.Decl.Pos(), "no invalid-byte counter (x++) found in lexPrelude")
+		return
+	}
+	const N = 1500
+	bad := ""
+	points := 0
+	for n := int64(1); n <= N && bad == ""; n += 1 {
+		for _, c := range []int64{0, 1, 2, n / 200, n / 101, n / 100, n / 5, n} {
+			if c < 0 || c > n {
+				continue
+			}
+			ev := &numEnv{info: info, vars: map[string]num{counter: {i: c}}, lenOf: func(ast.Expr) (int64, bool) { return n, true }}
+			okDefs := true
+			for _, d := range defs {
+				if d.name == counter || d.name == "bom16" || d.name == "ascii16" {
+					continue
+				}
+				if v, ok := ev.eval(d.expr); ok {
+					ev.vars[d.name] = v
+				}
+			}
+			_ = okDefs
+			// first matching clause
+			proceeds, decided := false, false
+			for _, cl := range sw.Body.List {
+				cc := cl.(*ast.CaseClause)
+				match := cc.List == nil
+				for _, e := range cc.List {
+					v, ok := ev.eval(e)
+					if !ok || !v.isBool {
+						w.undecided("encoding-gate|shape", e.Pos(), "cannot evaluate the case condition "+render(e)+" over (count, len): the gate is no longer a numeric predicate of those two")
+						return
+					}
+					if v.b {
+						match = true
+					}
+				}
+				if !match {
+					continue
+				}
+				decided = true
+				bails := false
+				for _, st := range cc.Body {
+					if r, ok := st.(*ast.ReturnStmt); ok && len(r.Results) == 1 && render(r.Results[0]) == "false" {
+						bails = true
+					}
+				}
+				proceeds = !bails
+				break
+			}
+			points++
+			if !decided {
+				continue
+			}
+			if proceeds != (c == 0) {
+				bad = fmt.Sprintf("with %d invalid byte(s) in %d bytes of input the prelude %s", c, n, map[bool]string{true: "lets lexing proceed", false: "refuses to lex"}[proceeds])
+				break
+			}
+		}
+	}
+	if bad == "" {
+		w.ok("encoding-gate", sw.Pos(), fmt.Sprintf("evaluated the prelude's encoding decision on %d (count, length) points up to length %d: lexing proceeds exactly when no invalid UTF-8 byte was counted", points, N))
+	} else {
+		w.violation("encoding-gate", sw.Pos(), bad+": the main loop assumes valid UTF-8, so such input makes the lexer fail to make progress or build malformed spans (internal compiler errors instead of an encoding diagnostic)")
+	}
+}
+
+// rz2SorterCleanup (RZ2, C41): the iterator returned by Sorter.Sort keeps scratch state in the
+// Sorter (state map, stack, iterating flag). Every way out of the iterator — exhaustion, the
+// consumer breaking out early, a panic — must reset all three, i.e. the reset is in a deferred
+// function of the iterator closure itself; otherwise marks of one iteration leak into the next.
+func rz2SorterCleanup(w *World) {
+	w.rule("RZ2")
+	rel := "internal/toposort"
+	p := w.pkg(rel)
+	sortFn := w.fn(rel, "(*Sorter).Sort")
+	if p == nil || sortFn == nil {
+		return
+	}
+	info := p.TypesInfo
+	st := w.typ(rel, "Sorter")
+	if st == nil {
+		return
+	}
+	// scratch fields = fields of Sorter written inside the iterator closure (or push)
+	var iter *ast.FuncLit
+	ast.Inspect(sortFn.Decl.Body, func(x ast.Node) bool {
+		if r, ok := x.(*ast.ReturnStmt); ok && len(r.Results) == 1 {
+			if fl, ok := r.Results[0].(*ast.FuncLit); ok {
+				iter = fl
+			}
+		}
+		return true
+	})
+	if iter == nil {
+		w.undecided("sorter-cleanup|iterator", sortFn.Decl.Pos(), "Sorter.Sort no longer returns a function literal")
+		return
+	}
+	var deferred *ast.FuncLit
+	for _, s := range iter.Body.List {
+		if ds, ok := s.(*ast.DeferStmt); ok {
+			if fl, ok := ds.Call.Fun.(*ast.FuncLit); ok {
+				deferred = fl
+			}
+		}
+	}
+	need := map[string]bool{"state": false, "stack": false, "iterating": false}
+	if deferred != nil {
+		ast.Inspect(deferred.Body, func(x ast.Node) bool {
+			switch e := x.(type) {
+			case *ast.CallExpr:
+				if isBuiltinCall(info, e, "clear") && len(e.Args) == 1 {
+					if v := selField(info, e.Args[0]); v != nil {
+						if v.Name() == "state" {
+							need["state"] = true
+						}
+					}
+				}
+			case *ast.AssignStmt:
+				for i, l := range e.Lhs {
+					if v := selField(info, l); v != nil && i < len(e.Rhs) {
+						switch v.Name() {
+						case "stack":
+							need["stack"] = true
+						case "iterating":
+							if render(e.Rhs[i]) == "false" {
+								need["iterating"] = true
+							}
+						case "state":
+							need["state"] = true
+						}
+					}
+				}
+			}
+			return true
+		})
+	}
+	var missing []string
+	for k, ok := range need {
+		if !ok {
+			missing = append(missing, k)
+		}
+	}
+	sortStrings(missing)
+	if deferred != nil && len(missing) == 0 {
+		w.ok("sorter-cleanup", deferred.Pos(), "the iterator defers a cleanup that clears Sorter.state, resets Sorter.stack and clears Sorter.iterating: no mark survives an exhausted, abandoned or panicking iteration")
+	} else {
+		w.violation("sorter-cleanup", iter.Pos(), "the iterator returned by Sorter.Sort does not reset "+strings.Join(missing, ", ")+" in a deferred function of its own: after an early break, a second range over the same sequence, or two sequences from one Sorter, stale marks make nodes disappear or produce a false cycle panic on a DAG")
+	}
+}
+
+// rz3TrieByteKeys (RZ3, C41): trie keys are byte strings. Insertion and lookup must walk them the
+// same way; a `range` over a string yields runes (UTF-8 decoding, invalid bytes become U+FFFD), so
+// rune iteration over keys anywhere in package trie makes inserts and lookups disagree for
+// non-ASCII keys.
+func rz3TrieByteKeys(w *World) {
+	w.rule("RZ3")
+	p := w.pkg("internal/trie")
+	if p == nil {
+		return
+	}
+	info := p.TypesInfo
+	n, bad := 0, 0
+	for _, b := range allFuncBodies(p) {
+		if b.Lit != nil {
+			continue
+		}
+		ast.Inspect(b.Body, func(x ast.Node) bool {
+			rs, ok := x.(*ast.RangeStmt)
+			if !ok {
+				return true
+			}
+			tv, ok := info.Types[rs.X]
+			if !ok {
+				return true
+			}
+			if bt, ok := tv.Type.Underlying().(*types.Basic); ok && bt.Info()&types.IsString != 0 {
+				n++
+				if rs.Value != nil {
+					bad++
+					w.violation("trie-byte-keys|"+b.Label, rs.Pos(), "rune iteration over a string key in package trie: keys are byte strings and the other operations index them byte-wise, so non-ASCII keys are stored under different nybbles than they are looked up with")
+				}
+			}
+			return true
+		})
+	}
+	if bad == 0 {
+		w.ok("trie-byte-keys", token.NoPos, fmt.Sprintf("no rune-valued range over a string key in package trie (%d string ranges inspected): insert and lookup both walk bytes", n))
+	}
+}
+
+func sortStrings(s []string) {
+	for i := 1; i < len(s); i++ {
+		for j := i; j > 0 && s[j] < s[j-1]; j-- {
+			s[j], s[j-1] = s[j-1], s[j]
+		}
+	}
+}
